@@ -68,6 +68,9 @@ func e5(ps []prof, owner map[string]string) {
 				{{"moving-model", "own-stays"}, {"other-stays"}},
 				{{"own-stays"}, {"moving-model", "other-stays"}},
 				{{"moving-model", "own-stays"}, {"other-stays"}},
+				// the provider's endpoint stays up and lists nothing at all any more: everything it had is elsewhere now
+				{{}, {"moving-model", "own-stays", "other-stays"}},
+				{{"moving-model", "own-stays"}, {"other-stays"}},
 			}
 			for ri, rd := range rounds {
 				lists[0], lists[1] = rd[0], rd[1]
@@ -75,7 +78,8 @@ func e5(ps []prof, owner map[string]string) {
 				time.Sleep(30 * time.Millisecond) // asynchronous unification settles
 				for side, px := range []string{first[own], first[other]} {
 					var names []string
-					okRead := stack.Eventually(time.Second, func() bool {
+					readOK := false
+					okRead := stack.Eventually(1500*time.Millisecond, func() bool {
 						r := stack.Do(o.Addr, &stack.Req{Method: "GET", Target: "/olla/" + px + "/v1/models", Headers: [][2]string{{"X-Verif-Client", "1"}}, Timeout: 5 * time.Second})
 						if r.Status != 200 {
 							return false
@@ -92,7 +96,9 @@ func e5(ps []prof, owner map[string]string) {
 						for _, m := range doc.Data {
 							names = append(names, m.ID)
 						}
-						// settled when it shows what this side lists now
+						readOK = true
+						// settled when it shows what this side lists now and nothing else (unification is asynchronous: a
+						// listing that still shows more is read again until the horizon, and judged as last read)
 						has := map[string]bool{}
 						for _, n := range names {
 							has[n] = true
@@ -102,8 +108,9 @@ func e5(ps []prof, owner map[string]string) {
 								return false
 							}
 						}
-						return true
+						return len(names) == len(rd[side])
 					})
+					okRead = okRead || readOK
 					res.Add("evaluations", 1)
 					res.SetAdd("distinct_nontrivial", fmt.Sprintf("E5|%s|%s|%d|%d|%v", own, other, ri, side, names))
 					if !okRead {
